@@ -537,7 +537,10 @@ nni_aio_start(nni_aio *aio, nni_aio_cancel_fn cancel, void *data)
 		return (false);
 	}
 	aio->a_result = NNG_OK;
-	if (timeout) {
+	// An immediate timeout only makes sense for an operation that could
+	// wait: one started without a cancel function completes at once
+	// (and is never put on the expire list either, see below).
+	if (timeout && (cancel != NULL)) {
 		aio->a_sleep     = false;
 		aio->a_result    = aio->a_expire_ok ? NNG_OK : NNG_ETIMEDOUT;
 		aio->a_expire_ok = false;
